@@ -27,6 +27,10 @@ type TFWrite struct {
 	// the Go value both places hold ONE map / slice instance (e.g. a shared 'defaults' map); the tree must
 	// still get two independent containers
 	NativeDup bool `json:"nativedup,omitempty"`
+	// Reverse: not a tree-form write but Reverse() of the list at Path ("" = the root), called through the
+	// list's own handle between two writes: its elements (containers included) move, and a later write
+	// along the same path must reach what is at that path THEN
+	Reverse bool `json:"reverse,omitempty"`
 }
 
 // aliasNativeDup makes the last entry of a native map / slice the same Go instance as its first container entry.
@@ -575,9 +579,36 @@ func GenC11(t *rapid.T) *C11Case {
 	model := tFromV(root)
 	nw := drawInt(t, 1, 5, "nwrites")
 	cfg := tfTreeCfg()
+	var lastSet []tfSeg
+	reuse := false
 	for i := 0; i < nw; i++ {
+		if lastSet != nil && !reuse && oneIn(t, 4, "reversebetween") {
+			// a list on (or off) the path of the last write is reversed through its own handle; the next
+			// write then often goes along exactly the same path again
+			var cands [][]tfSeg
+			for k := len(lastSet) - 1; k >= 0; k-- {
+				if x := nodeAt(model, lastSet[:k]); x != nil && x.k == KList && len(x.elems) >= 2 {
+					cands = append(cands, lastSet[:k])
+				}
+			}
+			if len(cands) > 0 {
+				p := cands[drawIdx(t, len(cands), "revwhich")]
+				x := nodeAt(model, p)
+				for a, b := 0, len(x.elems)-1; a < b; a, b = a+1, b-1 {
+					x.elems[a], x.elems[b] = x.elems[b], x.elems[a]
+				}
+				c.Writes = append(c.Writes, TFWrite{Path: joinTF(p), Reverse: true})
+				reuse = drawBool(t, "samepath")
+			}
+		}
 		unset := oneIn(t, 4, "unset")
 		segs := genWritePath(t, model, unset)
+		if reuse {
+			unset, segs, reuse = false, append([]tfSeg{}, lastSet...), false
+		}
+		if !unset {
+			lastSet = segs
+		}
 		w := TFWrite{Path: joinTF(segs), Unset: unset}
 		if !unset && oneIn(t, 6, "refvalue") {
 			// the value is a container that is already in the tree (or a new container holding it)
@@ -731,6 +762,35 @@ func CheckC11(c *C11Case, st *Stats) error {
 	collectIDs(model, everSeen)
 	nontrivial := false
 	for wi, w := range c.Writes {
+		if w.Reverse {
+			x := model
+			if w.Path != "" {
+				rs, ok := parseTF(w.Path)
+				if !ok {
+					continue
+				}
+				x = nodeAt(model, rs)
+			}
+			l, isList := any(nil), false
+			if x != nil && x.k == KList && x.impl != nil {
+				l, isList = x.impl.(at.List)
+			}
+			if !isList {
+				st.Count("skipped.reverse_not_applicable")
+				continue
+			}
+			if pv, panicked := catch(func() { l.(at.List).Reverse() }); panicked {
+				return errf("write %d: Reverse() of the list at %q panicked: %v", wi, w.Path, pv)
+			}
+			for a, b := 0, len(x.elems)-1; a < b; a, b = a+1, b-1 {
+				x.elems[a], x.elems[b] = x.elems[b], x.elems[a]
+			}
+			st.Count("reverse_between_writes")
+			if err := cmpT(model, root, map[any]bool{}, ""); err != nil {
+				return errf("write %d: after Reverse() of the list at %q: %v", wi, w.Path, err)
+			}
+			continue
+		}
 		segs, ok := parseTF(w.Path)
 		if !ok {
 			continue
